@@ -444,7 +444,7 @@ def check_array(tkind):
 # cells
 
 ALL_TK = ("translate", "rotate", "scale", "mirror", "compose", "copy")
-THOROUGH_X = 40
+THOROUGH_X = 50
 
 CELLS = []
 for _tk in ALL_TK:
